@@ -42,7 +42,10 @@ def ensure_build():
     """Full (incremental) build of the Coq development, extraction and driver.  The build does not stop at the first failure
     (Makefile: every step records its outcome under build/status); whether a PROPERTY is affected is decided by obligations()."""
     t0 = time.time()
-    rc, out = sh('make -C %s all' % VERIF, timeout=3000)
+    # (checks may run in parallel: the build step is serialised by a lock, so that no two of them write the generated files, the
+    # extraction or the driver at the same time; with nothing to rebuild it takes a second)
+    os.makedirs(os.path.join(VERIF, 'build'), exist_ok=True)
+    rc, out = sh('flock -w 3000 %s make -C %s all' % (os.path.join(VERIF, 'build', '.lock'), VERIF), timeout=6100)
     return rc == 0, out, time.time() - t0
 
 
